@@ -56,6 +56,7 @@ def evaluated_block(rep, repo, smod, init, rules):
         except ModelError as e:
             repo._mapeval = None
             repo._mapeval_why = str(e)
+            repo._mapeval_outside = True
     res = repo._mapeval
     if res is None:
         rep.note(f'{rules[0][:3]}: schedule / memory-map block of SimOps.__init__ is outside the evaluated subset ({repo._mapeval_why}); the structural rules decide')
@@ -91,7 +92,24 @@ def evaluated_block(rep, repo, smod, init, rules):
     return True
 
 
+def structural_guard(rep, repo, n0):
+    """The structural rules are templates over the per-op form of the block. When the block could not be evaluated because it uses constructs
+    outside the evaluator (a vectorised or otherwise restructured block) a template mismatch says nothing about the behaviour: the findings
+    the templates added are withdrawn and the run ends undecided (exit 2). Templates that all match still decide (the block has the known shape)."""
+    if getattr(repo, '_mapeval_outside', False) and len(rep.violations) > n0:
+        first = rep.violations[n0]
+        del rep.violations[n0:]
+        raise ModelError(f'schedule / memory-map block of SimOps.__init__ is outside the evaluated subset ({repo._mapeval_why}) and does not have the per-op shape '
+                         f'the structural rules are written for ([{first.rule}] {first.message[:140]}): undecided')
+
+
 def schedule_rules(rep, repo):
+    n0 = len(rep.violations)
+    _schedule_rules(rep, repo)
+    structural_guard(rep, repo, n0)
+
+
+def _schedule_rules(rep, repo):
     """Level test / reference counting / release structure of SimOps.__init__ (also included by the checks of
     properties whose results depend on a valid schedule: C01, C02, C03, C05, C06)."""
     smod, init = simops.simops_init(repo)
